@@ -1,0 +1,377 @@
+//! Verification hooks (cargo feature `verif-hooks`, off by default).
+//!
+//! Nothing in this module changes the behaviour of the crate. It offers:
+//!
+//! * **H1** a *virtual wire*: when a [`VirtualWireEnd`] has been queued with
+//!   [`push_virtual_wire`], the next `Socket::new` does not bind UDP sockets but exchanges
+//!   datagrams over the channels of that end. Inbound datagrams still go through the unchanged
+//!   `RecvHandler::handle_inbound` (filter, exemption lookup, `Packet::decode`), outbound packets
+//!   are still encoded with `Packet::encode`.
+//! * **H2** a *scripted handler*: when a [`ScriptedHandler`] has been queued with
+//!   [`push_scripted_handler`], the next `Handler::spawn` returns it instead of starting a real
+//!   handler, so that an external harness can play the handler for an unmodified `Service`.
+//! * **H3** thin facades / re-exports of crate-private items.
+
+use crate::{
+    discv5::PERMIT_BAN_LIST,
+    kbucket::{self, KBucketsTable},
+    node_info::NodeAddress,
+    packet::{MessageNonce, Packet, PacketHeader, PacketKind, ProtocolIdentity},
+    Enr, PermitBanList,
+};
+use enr::NodeId;
+use parking_lot::{Mutex, RwLock};
+use std::{
+    collections::{HashMap, VecDeque},
+    net::SocketAddr,
+    sync::Arc,
+    time::{Duration, Instant},
+};
+use tokio::sync::{mpsc, oneshot};
+
+pub use crate::{
+    error::PacketError,
+    handler::{ConnectionDirection, Handler, HandlerIn, HandlerOut, WhoAreYouRef},
+    lru_time_cache::LruTimeCache,
+    query_pool::QueryState,
+    rpc::{Message, Request, RequestBody, Response, ResponseBody},
+    socket::FilterConfig,
+};
+
+/* ---------------------------------- H1: virtual wire ---------------------------------- */
+
+/// A raw datagram together with the remote socket address (source for inbound, destination for
+/// outbound datagrams).
+pub type Datagram = (SocketAddr, Vec<u8>);
+
+/// The shared map of filter exemptions ("expected responses") of a handler.
+pub type ExpectedResponses = Arc<RwLock<HashMap<SocketAddr, usize>>>;
+
+/// The socket side of a virtual wire. Consumed by `Socket::new`.
+pub struct VirtualWireEnd {
+    /// Datagrams "received from the network".
+    pub inbound: mpsc::UnboundedReceiver<Datagram>,
+    /// Datagrams "sent to the network".
+    pub outbound: mpsc::UnboundedSender<Datagram>,
+    /// Filled by `Socket::new` with the exemption map shared between handler and recv task.
+    pub expected_responses: Arc<Mutex<Option<ExpectedResponses>>>,
+}
+
+/// The harness side of a virtual wire.
+pub struct VirtualWire {
+    /// Inject a datagram as if it had been received from `SocketAddr`.
+    pub inject: mpsc::UnboundedSender<Datagram>,
+    /// Datagrams the node sent, with their destination.
+    pub sent: mpsc::UnboundedReceiver<Datagram>,
+    expected_responses: Arc<Mutex<Option<ExpectedResponses>>>,
+}
+
+impl VirtualWire {
+    /// Snapshot of the exemption map, `None` until a socket has been created over this wire.
+    pub fn expected_responses(&self) -> Option<HashMap<SocketAddr, usize>> {
+        self.expected_responses
+            .lock()
+            .as_ref()
+            .map(|map| map.read().clone())
+    }
+}
+
+lazy_static! {
+    static ref VIRTUAL_WIRES: Mutex<VecDeque<VirtualWireEnd>> = Mutex::new(VecDeque::new());
+    static ref SCRIPTED_HANDLERS: Mutex<VecDeque<ScriptedHandler>> = Mutex::new(VecDeque::new());
+}
+
+/// Creates a virtual wire and queues its socket end for the next `Socket::new`.
+pub fn push_virtual_wire() -> VirtualWire {
+    let (inject, inbound) = mpsc::unbounded_channel();
+    let (outbound, sent) = mpsc::unbounded_channel();
+    let expected_responses = Arc::new(Mutex::new(None));
+    VIRTUAL_WIRES.lock().push_back(VirtualWireEnd {
+        inbound,
+        outbound,
+        expected_responses: expected_responses.clone(),
+    });
+    VirtualWire {
+        inject,
+        sent,
+        expected_responses,
+    }
+}
+
+pub(crate) fn take_virtual_wire() -> Option<VirtualWireEnd> {
+    VIRTUAL_WIRES.lock().pop_front()
+}
+
+/* -------------------------------- H2: scripted handler -------------------------------- */
+
+/// What `Handler::spawn` returns: exit channel, channel into the handler, channel out of it.
+pub type ScriptedHandler = (
+    oneshot::Sender<()>,
+    mpsc::UnboundedSender<HandlerIn>,
+    mpsc::Receiver<HandlerOut>,
+);
+
+/// The harness ends of a scripted handler.
+pub struct HandlerScript {
+    /// Fires (or is dropped) when the service shuts the handler down.
+    pub exit: oneshot::Receiver<()>,
+    /// What the service sends to its handler.
+    pub from_service: mpsc::UnboundedReceiver<HandlerIn>,
+    /// Events the "handler" emits to the service.
+    pub to_service: mpsc::Sender<HandlerOut>,
+}
+
+/// Creates the channels of a handler and queues them for the next `Handler::spawn`.
+pub fn push_scripted_handler() -> HandlerScript {
+    let (exit_sender, exit) = oneshot::channel();
+    let (handler_send, from_service) = mpsc::unbounded_channel();
+    let (to_service, handler_recv) = mpsc::channel(50);
+    SCRIPTED_HANDLERS
+        .lock()
+        .push_back((exit_sender, handler_send, handler_recv));
+    HandlerScript {
+        exit,
+        from_service,
+        to_service,
+    }
+}
+
+pub(crate) fn take_scripted_handler() -> Option<ScriptedHandler> {
+    SCRIPTED_HANDLERS.lock().pop_front()
+}
+
+/// Builds the reference a handler hands to the service with a who-are-you query.
+pub fn whoareyou_ref(node_address: NodeAddress, nonce: MessageNonce) -> WhoAreYouRef {
+    WhoAreYouRef::verif_new(node_address, nonce)
+}
+
+/// The message nonce inside a who-are-you reference.
+pub fn whoareyou_ref_nonce(wru_ref: &WhoAreYouRef) -> MessageNonce {
+    wru_ref.verif_nonce()
+}
+
+/* ------------------------------------ H3: facades ------------------------------------- */
+
+/// A decoded packet in public types.
+#[derive(Debug, Clone, PartialEq, Eq)]
+pub struct DecodedPacket {
+    pub iv: u128,
+    pub message_nonce: MessageNonce,
+    pub kind: PacketKind,
+    pub message: Vec<u8>,
+    pub authenticated_data: Vec<u8>,
+}
+
+/// `Packet { iv, header { nonce, identity, kind }, message }.encode(dst_id)`.
+pub fn packet_encode(
+    iv: u128,
+    message_nonce: MessageNonce,
+    protocol_identity: ProtocolIdentity,
+    kind: PacketKind,
+    message: Vec<u8>,
+    dst_id: &NodeId,
+) -> Vec<u8> {
+    Packet {
+        iv,
+        header: PacketHeader {
+            message_nonce,
+            protocol_identity,
+            kind,
+        },
+        message,
+    }
+    .encode(dst_id)
+}
+
+/// `Packet::decode(local_id, identity, data)`.
+pub fn packet_decode(
+    local_id: &NodeId,
+    protocol_identity: ProtocolIdentity,
+    data: &[u8],
+) -> Result<DecodedPacket, PacketError> {
+    Packet::decode(local_id, protocol_identity, data).map(|(packet, authenticated_data)| {
+        DecodedPacket {
+            iv: packet.iv,
+            message_nonce: packet.header.message_nonce,
+            kind: packet.header.kind,
+            message: packet.message,
+            authenticated_data,
+        }
+    })
+}
+
+/// The closest-peers state machine of a FINDNODE lookup over node ids.
+pub struct FindNodeQuery(crate::query_pool::FindNodeQuery<NodeId>);
+
+impl FindNodeQuery {
+    pub fn new(
+        parallelism: usize,
+        num_results: usize,
+        peer_timeout: Duration,
+        target: NodeId,
+        known_closest_peers: Vec<NodeId>,
+    ) -> Self {
+        let config = crate::query_pool::FindNodeQueryConfig {
+            parallelism,
+            num_results,
+            peer_timeout,
+        };
+        FindNodeQuery(crate::query_pool::FindNodeQuery::with_config(
+            config,
+            target.into(),
+            known_closest_peers.into_iter().map(kbucket::Key::from),
+        ))
+    }
+
+    pub fn next(&mut self, now: Instant) -> QueryState<NodeId> {
+        self.0.next(now)
+    }
+
+    pub fn on_success(&mut self, peer: &NodeId, closer_peers: Vec<NodeId>) {
+        self.0.on_success(peer, closer_peers)
+    }
+
+    pub fn on_failure(&mut self, peer: &NodeId) {
+        self.0.on_failure(peer)
+    }
+
+    pub fn into_result(self) -> Vec<NodeId> {
+        self.0.into_result()
+    }
+}
+
+/// A lookup result as the predicate state machine sees it: a node id and whether its record
+/// satisfies the predicate.
+#[derive(Debug, Clone, Copy, PartialEq, Eq)]
+pub struct PredicateResult {
+    pub node_id: NodeId,
+    pub matches: bool,
+}
+
+impl From<PredicateResult> for NodeId {
+    fn from(result: PredicateResult) -> NodeId {
+        result.node_id
+    }
+}
+
+impl From<&PredicateResult> for NodeId {
+    fn from(result: &PredicateResult) -> NodeId {
+        result.node_id
+    }
+}
+
+/// The closest-peers state machine of a predicate lookup. The predicate is `|r| r.matches`.
+pub struct PredicateQuery(crate::query_pool::PredicateQuery<NodeId, PredicateResult>);
+
+impl PredicateQuery {
+    pub fn new(
+        parallelism: usize,
+        num_results: usize,
+        peer_timeout: Duration,
+        target: NodeId,
+        known_closest_peers: Vec<PredicateResult>,
+    ) -> Self {
+        let config = crate::query_pool::PredicateQueryConfig {
+            parallelism,
+            num_results,
+            peer_timeout,
+        };
+        PredicateQuery(crate::query_pool::PredicateQuery::with_config(
+            config,
+            target.into(),
+            known_closest_peers
+                .into_iter()
+                .map(|peer| kbucket::PredicateKey {
+                    key: peer.node_id.into(),
+                    predicate_match: peer.matches,
+                }),
+            |result: &PredicateResult| result.matches,
+        ))
+    }
+
+    pub fn next(&mut self, now: Instant) -> QueryState<NodeId> {
+        self.0.next(now)
+    }
+
+    pub fn on_success(&mut self, peer: &NodeId, closer_peers: &[PredicateResult]) {
+        self.0.on_success(peer, closer_peers)
+    }
+
+    pub fn on_failure(&mut self, peer: &NodeId) {
+        self.0.on_failure(peer)
+    }
+
+    pub fn into_result(self) -> Vec<NodeId> {
+        self.0.into_result()
+    }
+}
+
+/// The GCRA limiter of the packet filter with explicit time.
+pub struct Limiter<K: std::hash::Hash + Eq + Clone>(crate::socket::VerifLimiter<K>);
+
+impl<K: std::hash::Hash + Eq + Clone> Limiter<K> {
+    pub fn from_quota(max_tokens: u64, replenish_all_every: Duration) -> Result<Self, &'static str> {
+        crate::socket::VerifLimiter::from_quota(crate::socket::VerifQuota::verif_new(
+            max_tokens,
+            replenish_all_every,
+        ))
+        .map(Limiter)
+    }
+
+    /// `true` iff the request is allowed.
+    pub fn allows(&mut self, time_since_start: Duration, key: &K, tokens: u64) -> bool {
+        self.0.allows(time_since_start, key, tokens).is_ok()
+    }
+
+    pub fn prune(&mut self, time_limit: Duration) {
+        self.0.prune(time_limit)
+    }
+}
+
+/// The inbound packet filter.
+pub struct Filter(crate::socket::VerifFilter);
+
+impl Filter {
+    pub fn new(config: FilterConfig, ban_duration: Option<Duration>) -> Self {
+        Filter(crate::socket::VerifFilter::new(config, ban_duration))
+    }
+
+    pub fn initial_pass(&mut self, src: &SocketAddr) -> bool {
+        self.0.initial_pass(src)
+    }
+
+    pub fn final_pass(&mut self, node_address: &NodeAddress) -> bool {
+        // The packet argument is unused by the filter.
+        let packet = Packet::new_whoareyou([0; 12], [0; 16], ProtocolIdentity::default(), 0);
+        self.0.final_pass(node_address, &packet)
+    }
+
+    pub fn prune_limiter(&mut self) {
+        self.0.prune_limiter()
+    }
+}
+
+/// A routing table with the IP table/bucket filters that `Discv5::new` installs with `ip_limit`.
+pub fn ip_filtered_table(
+    local_id: NodeId,
+    pending_timeout: Duration,
+    max_incoming_per_bucket: usize,
+) -> KBucketsTable<NodeId, Enr> {
+    KBucketsTable::new(
+        local_id.into(),
+        pending_timeout,
+        max_incoming_per_bucket,
+        Some(Box::new(kbucket::filter::IpTableFilter) as Box<dyn kbucket::filter::Filter<Enr>>),
+        Some(Box::new(kbucket::filter::IpBucketFilter) as Box<dyn kbucket::filter::Filter<Enr>>),
+    )
+}
+
+/// A copy of the global permit/ban list.
+pub fn ban_list_snapshot() -> PermitBanList {
+    PERMIT_BAN_LIST.read().clone()
+}
+
+/// Replaces the global permit/ban list.
+pub fn ban_list_set(list: PermitBanList) {
+    *PERMIT_BAN_LIST.write() = list;
+}
